@@ -189,20 +189,139 @@ def probes(chk, prog):
         # every probe's error is propagated
         errs = [1 for conds, kind, val in lp["paths"] if kind == "exit:error"]
         chk.ob("R-ERR", SEARCH, len(errs) >= 1, "a failed probe ends the search with its error", w, key="probe-error:%d" % lp["head"])
-        # queue-based bisection: a popped inclusive range is skipped unprobed only when start > end
+        # queue-based bisection: the queued ranges cover the index range, and each step splits its range exactly
         if "queue" in names:
-            for conds, kind, val in lp["paths"]:
-                if kind != "next":
-                    continue
-                has_probe = any(find(c[0], lambda x: x[0] == "await") for c in conds)
-                if has_probe:
-                    continue
-                pops = [c for c in conds if len(c) == 2 and c[0][0] == "bin" and c[0][1] in ("Lt", "Le")]
-                okk = len(pops) == 1 and pops[0][0][1] == "Lt" and pops[0][1] is True and is_pair(pops[0][0][2], "1") and is_pair(pops[0][0][3], "0")
-                chk.ob("R-ORDER", SEARCH, okk, "an inclusive sub-range is discarded without a probe only when it is empty (end < start)" if okk else
-                       "a sub-range is discarded unprobed under %s" % [show(canon_calls(c[0]))[:80] for c in conds[1:]], w, key="skip-only-empty")
+            coverage(chk, lp, names["queue"], w)
     chk.floor("in-loop probes", n_probe, 2)
     populated_only(chk, prog, co, ls)
+
+
+def _fold_cond(c, sub):
+    """truth of a path condition once the popped range is a pair of constants; None when it does not depend on them alone"""
+    t = sym.rebuild(c[0], sub)
+    if len(c) == 2:
+        return (t == TRUE) == c[1] if t in (TRUE, FALSE) else None
+    if sym.is_c(t) and isinstance(t[1], int):
+        return any(lo <= t[1] <= hi for lo, hi in c[2])
+    return None
+
+
+def _pushes(q):
+    """(pairs pushed at the back, in order) for a queue value push_back(..push_back(pop_front(Q), r1).., rk)"""
+    out = []
+    while q[0] == "mutated" and q[1].endswith("::push_back") and q[2] == 0:
+        out.append(q[3][1])
+        q = q[3][0]
+    if not (q[0] == "mutated" and q[1].endswith("::pop_front")):
+        return None
+    prs = []
+    for r in reversed(out):
+        if not (r[0] == "tuple" and len(r[1]) == 2 and all(sym.is_c(x) and isinstance(x[1], int) for x in r[1])):
+            return None
+        prs.append((r[1][0][1], r[1][1][1]))
+    return prs
+
+
+REPRS = {"inclusive (start..=end)": lambda a, b: set(range(a, b + 1)), "half-open (start..end)": lambda a, b: set(range(a, b))}
+
+
+def coverage(chk, lp, q, w):
+    """The bisection queue, decided on the loop's closed form with the popped pair (s, e) and the element count replaced by every
+    small constant (the closed form is arithmetic in s and e only): under one reading of a pair — inclusive or half-open — the
+    seed covers 0..n exactly, a pair is dropped without a probe exactly when it is empty, and a probed pair's midpoint lies in
+    it and the pairs pushed back are disjoint and, with the midpoint, cover it."""
+    pops = {c[0][1] for conds, kind, val in lp["paths"] for c in conds if len(c) == 3 and c[0][0] == "discr" and c[0][1][0] == "call" and c[0][1][1].endswith("::pop_front")}
+    if len(pops) != 1:
+        chk.ob("R-ORDER", SEARCH, False, "the queue is popped once per iteration (%d pop(s))" % len(pops), w, key="skip-only-empty")
+        return
+    pair = ("vfld", next(iter(pops)), "Some", "0")
+    s_t, e_t = fld(pair, "0"), fld(pair, "1")
+    verdict = {}
+    B = 7
+    for name, members in REPRS.items():
+        bad = None
+        for s0 in range(B):
+            for e0 in range(B):
+                S = members(s0, e0)
+                sub = {s_t: C(s0, "usize"), e_t: C(e0, "usize")}
+                live = []
+                for conds, kind, val in lp["paths"]:
+                    ts = [_fold_cond(c, sub) for c in conds]
+                    if any(t is False for t in ts):
+                        continue
+                    live.append((conds, kind, val))
+                probing = [p for p in live if any(find(c[0], lambda x: x[0] == "await") for c in p[0])]
+                silent = [p for p in live if p[1] == "next" and p not in probing]
+                if not S:
+                    if probing or not silent:
+                        bad = bad or "the empty pair (%d, %d) is probed" % (s0, e0)
+                    continue
+                if silent or not probing:
+                    bad = bad or "the non-empty pair (%d, %d) is dropped without a probe" % (s0, e0)
+                    continue
+                for conds, kind, val in probing:
+                    mids = set()
+                    for c in conds:
+                        for a in find(c[0], lambda x: x[0] == "await" and x[1][0] == "call" and "call_mut" in x[1][1]):
+                            arg = a[1][2][1]
+                            m = sym.rebuild(arg[1][0] if arg[0] == "tuple" else arg, sub)
+                            mids.add(m[1] if sym.is_c(m) else None)
+                    if len(mids) != 1 or None in mids or next(iter(mids)) not in S:
+                        bad = bad or "the probe for the pair (%d, %d) is not one index inside it (%s)" % (s0, e0, sorted(mids, key=str))
+                        continue
+                    mid = next(iter(mids))
+                    if kind != "next":
+                        continue
+                    prs = _pushes(sym.rebuild(val[q], sub))
+                    if prs is None:
+                        bad = bad or "after probing (%d, %d) the queue is not the popped queue plus pushed pairs" % (s0, e0)
+                        continue
+                    if not prs:
+                        continue            # the search leaves the bisection here (a populated index was found)
+                    parts = [members(a, b) for a, b in prs]
+                    union = set().union(*parts) | {mid}
+                    if union != S or sum(len(x) for x in parts) + 1 != len(S):
+                        bad = bad or "after probing %d in (%d, %d) the pushed pairs %s do not split the rest of it" % (mid, s0, e0, prs)
+        # the seed
+        seed = lp["entry"].get(q)
+        if bad is None:
+            bad = _seed_bad(seed, members)
+        verdict[name] = bad
+    good = [n for n, b in verdict.items() if b is None]
+    chk.ob("R-ORDER", SEARCH, len(good) == 1, ("the bisection queue holds %s pairs: the seed covers every index, a pair is dropped unprobed only when empty, and each probe splits its pair exactly" % good[0])
+           if len(good) == 1 else "the bisection queue loses or repeats indices: " + "; ".join("%s: %s" % (n, b) for n, b in verdict.items()), w, key="skip-only-empty")
+
+
+def _seed_bad(seed, members):
+    prs = []
+    if seed is not None and seed[0] == "call" and seed[1].endswith("::from") and len(seed[2]) == 1 and seed[2][0][0] == "array":
+        prs = list(seed[2][0][1])
+    elif seed is not None:
+        q = seed
+        while q[0] == "mutated" and q[1].endswith("::push_back") and q[2] == 0:
+            prs.insert(0, q[3][1])
+            q = q[3][0]
+        if not (q[0] == "call" and (q[1].endswith("::new") or q[1].endswith("::with_capacity"))):
+            prs = []
+    if not prs or not all(r[0] == "tuple" and len(r[1]) == 2 for r in prs):
+        return "the initial queue is not a list of pairs"
+    ats = set()
+    for r in prs:
+        for x in r[1]:
+            ats |= {a for a in sym.atoms(x)}
+    if len(ats) != 1:
+        return "the initial queue depends on %d inputs (the element count expected)" % len(ats)
+    n_t = next(iter(ats))
+    for n in range(1, 7):
+        parts = []
+        for r in prs:
+            a, b = (sym.rebuild(x, {n_t: C(n, "usize")}) for x in r[1])
+            if not (sym.is_c(a) and sym.is_c(b)):
+                return "the initial queue is not arithmetic in the element count"
+            parts.append(members(a[1], b[1]))
+        if set().union(*parts) != set(range(n)) or sum(len(x) for x in parts) != n:
+            return "for %d elements the initial queue covers %s" % (n, sorted(set().union(*parts)))
+    return None
 
 
 def probe_index(v):
@@ -285,7 +404,7 @@ def populated_only(chk, prog, co, ls):
             ev2 = sym.Evaluator(prog, opaque_local=[R + "search::should_search_right"])
             ev2.summarize_loops = True
             try:
-                t2 = ev2._run(co, leaf[1], env, {lp["head"]: 1}, 0, until=later)
+                t2 = ev2.run(co, leaf[1], env, {lp["head"]: 1}, 0, until=later)
             except sym.Undecided:
                 continue
             for c2, lf in loops.paths(t2):
